@@ -611,7 +611,12 @@ func (vm *Thread) run() {
 		case bytecode.AWAIT_SYNC:
 			promise := (*Promise)(vm.peek().Pointer())
 
-			result, stackTrace, err := promise.AwaitSync()
+			result, stackTrace, err, aborted := promise.AwaitSyncCtx(vm.Aborter.Context())
+			if aborted {
+				vm.pop()
+				vm.throw(value.ExecutionAbortedError.ToValue())
+				continue
+			}
 			if !err.IsUndefined() {
 				vm.pop()
 				vm.rethrow(err, vm.BuildStackTracePrepend(stackTrace))
